@@ -103,6 +103,19 @@ def runOpGrammar (op : String) (args : List String) : String :=
     match decTrees ts, decGrammar g, decLexicon l with
     | some ts, some g, some l => (match extractOK ts g l with | none => "ok" | some c => "FAIL " ++ c)
     | _, _, _ => bad
+  | "fan_out", [l] =>
+    match decLin l with
+    | some l => ",".intercalate ((fanOut l).map toString)
+    | none => bad
+  | "P.C06.fanout", [l, vec] =>
+    -- fan_out(lin): number of arguments of the left-hand side, then for every right-hand-side element the number of its variables
+    match decLin l with
+    | some l =>
+      let refs := l.flatMap fun arg => arg.map (·.1)
+      let k := (refs.map fun r => (r + 1).toNat).foldl max 0
+      let want := l.length :: (List.range k).map fun (i : Nat) => refs.count (Int.ofNat i)
+      if vec == ",".intercalate (want.map toString) then "ok" else "FAIL fan-out-vector"
+    | none => bad
   | "is_contextfree", [g] =>
     match decGrammar g with
     | some g => if isContextFree g then "t" else "f"
